@@ -108,6 +108,12 @@ add("C22", EX, "Every chunking (including zero-length chunks) of all small 1-d, 
     "small-scope exhaustive enumeration of the real dask.array reductions against NumPy")
 add("C32", EX, "Every 1-d array over 4 levels x every chunking x every sorted q sub-vector x method on da.percentile, checked for exactly the statement (bounds, monotonicity, end-points); da.nanpercentile on every NaN placement of small 1-d and 2-d arrays x every chunking x axis compared with np.nanpercentile.", "5/C32", ARR_NOTE,
     "small-scope exhaustive enumeration; statement-only oracle for the approximate part, NumPy reference for the nan part")
+add("C41", EX, "Programs of up to two operations (row selection, loc, repartition, set_index, partition selection, merge/join/concat/arithmetic against differently partitioned frames, blockwise/window/index ops) over every small sorted index and every from_pandas layout; wherever known divisions are reported, npartitions and the index range of every partition the optimised graph really produces are compared with them.", "5/C41", DF_NOTE,
+    "bounded exhaustive program enumeration against an invariant oracle")
+add("C44", EX, "Every small sorted index x every truthful source division vector (empty partitions allowed) x every legal target division vector / npartitions / partition_size, plus every small index through from_pandas: the computed frame and the individual partitions are compared exactly with the source rows, their order and the requested layout.", "5/C44", DF_NOTE,
+    "bounded exhaustive enumeration against a pandas reference")
+add("C45", EX, "Exhaustive small-scope enumeration of the real division planners: every sorted sequence up to length 8 (thorough 12) with every npartitions/chunksize through sorted_division_locations, every small weighted summary through process_val_weights, and every small unsorted partitioned series through the quantile / set_index path, checked against the statement's invariants.", "5/C45", DF_NOTE,
+    "bounded exhaustive enumeration against an invariant oracle")
 
 
 def build():
